@@ -305,32 +305,8 @@ def judge_tree(case, rec: Recorder | None = None) -> list[Disc]:
 # operators
 # --------------------------------------------------------------------------
 
-def ep_find(top, addr):
-    """implementation node at a structural address (through children/attributes/namespace_nodes)."""
-    n = top
-    for part in addr:
-        if isinstance(part, int):
-            n = n.children[part]
-        elif part[0] == '@':
-            n = next(x for x in n.attributes if x.name == part[1])
-        else:
-            n = next(x for x in n.namespace_nodes if (x.name or '') == part[1])
-    return n
-
-
-def adopt_all(ref: xdm.RefTree, top) -> bool:
-    """take the implementation's attribute/namespace order; False when the structure differs (C02/tree reports it)."""
-    ok = True
-    for rn in [r for r in ref.nodes if r.kind == 'element']:
-        try:
-            n = ep_find(top, rn.addr)
-            if n.node_kind != 'element':
-                return False
-            ok &= ref.adopt_order(rn.addr, [x.name or '' for x in n.namespace_nodes], [x.name for x in n.attributes])
-        except (IndexError, StopIteration, AttributeError, TypeError):
-            return False
-    ref.renumber()
-    return ok
+ep_find = xdm.ep_find
+adopt_all = xdm.adopt_all
 
 
 def _ref_op(ref, op, A, B):
@@ -408,7 +384,7 @@ def judge_ops(case, rec: Recorder | None = None) -> list[Disc]:
         want = _ref_op(ref, op, A, B)
         expr = _render_op(op)
         nA, nB = [ep_find(top, x.addr) for x in A], [ep_find(top, x.addr) for x in B]
-        kinds = '+'.join(sorted({x.kind for x in A + B})) or 'empty'
+        kinds = 'with-attr-or-ns' if any(x.kind in ('attribute', 'namespace') for x in A + B) else 'tree-nodes-only'
         try:
             tok = _parser30().parse(expr)
             ctx = XPathContext(top, variables={'A': nA, 'B': nB})
